@@ -17,6 +17,11 @@ import sys
 
 VERIF = os.path.dirname(os.path.dirname(os.path.abspath(__file__)))
 ALL = ['C%02d' % i for i in range(1, 21)]
+# the checks whose properties touch the same mechanisms (used by --checks neigh: a full 80 x 20 matrix costs ~7 CPU-hours)
+NEIGH = dict(C01='C01 C06 C13 C11', C02='C02 C06 C04 C20', C03='C03 C04 C05 C08 C09 C20 C12', C04='C04 C20 C05 C03 C12', C05='C05 C03 C08 C04', C06='C06 C01 C02',
+             C07='C07 C08 C05 C04', C08='C08 C03 C04 C05', C09='C09 C03 C20 C10', C10='C10 C09 C14 C03', C11='C11 C12 C13 C20', C12='C12 C04 C20 C11',
+             C13='C13 C01 C11 C20 C10', C14='C14 C10 C16 C17', C15='C15 C16 C17 C12', C16='C16 C14 C17 C15', C17='C17 C14 C16', C18='C18 C19', C19='C19 C18',
+             C20='C20 C04 C12 C13')
 PY = '/venv/bin/python'
 
 
@@ -24,7 +29,7 @@ def sh(cmd, **kw):
     return subprocess.run(cmd, capture_output=True, text=True, **kw)
 
 
-def evaluate(sid, checks, tier='quick'):
+def evaluate(sid, checks, tier='quick', skip_done=False):
     d = os.path.join(VERIF, 'seeded', sid)
     meta = json.load(open(os.path.join(d, 'meta.json')))
     wt = '/tmp/mx_%s' % sid
@@ -54,7 +59,9 @@ def evaluate(sid, checks, tier='quick'):
         res['tests'] = t.stdout.strip().splitlines()[-1] if t.stdout.strip() else t.stderr[-200:]
         res['tests_pass'] = t.returncode == 0
         res['demo_mutated'] = sh([PY, demo], env=env, cwd=d).returncode
-        want = checks if checks != ['own'] else [meta['property']]
+        want = checks if checks not in (['own'], ['neigh']) else ([meta['property']] if checks == ['own'] else NEIGH[meta['property']].split())
+        if skip_done:
+            want = [c for c in want if c not in res['checks']]
         env2 = dict(os.environ, VERIF_REPO=wt, VERIF_OUT=out, VERIF_SEED='1')
         for c in want:
             p = sh([PY, '-m', 'mc.run', c, '--tier', tier], cwd=VERIF, env=env2)
@@ -97,12 +104,13 @@ def main():
     ap.add_argument('--checks', nargs='*', default=['own'])
     ap.add_argument('--jobs', type=int, default=2)
     ap.add_argument('--tier', default='quick')
+    ap.add_argument('--skip-done', action='store_true', help='do not re-run checks that already have a verdict in result.json')
     a = ap.parse_args()
     checks = ALL if a.checks == ['all'] else a.checks
     base = os.path.join(VERIF, 'seeded')
     ids = a.only or sorted(d for d in os.listdir(base) if os.path.exists(os.path.join(base, d, 'meta.json')))
     with concurrent.futures.ThreadPoolExecutor(a.jobs) as ex:
-        for r in ex.map(lambda s: evaluate(s, checks, a.tier), ids):
+        for r in ex.map(lambda s: evaluate(s, checks, a.tier, a.skip_done), ids):
             print(json.dumps({k: r.get(k) for k in ('id', 'property', 'tests_pass', 'demo_clean', 'demo_mutated', 'caught_by', 'missed_by', 'error')}))
     readme()
 
